@@ -95,6 +95,13 @@ claim("C15",
       "including inside the goroutine Shutdown spawns (spawned closures are followed for panic obligations). Known finding (site canary): Shutdown with an already cancelled context.",
       _TB + "sync.Once/atomic semantics assumed; frames of the list-publishing functions are marked unchecked. Not decided: metric/log providers, liveness.",
       "DESIGN.md 4 C15")
+claim("C16",
+      "Proof of deadlock freedom by lock order for the global meter side: a strict order meterProvider.mtx < meter.mtx < registration.unregMu is declared and every acquisition - direct Lock(), a call of a function whose contract declares `acquires`, "
+      "or a call through the function-typed field registration.unreg (declared footprint: meter.mtx, checked at every store into the field) - must respect it; delegate/instruments/meters/tracers are accessed only under their lock (guarded_by), and the lock invariants "
+      "'delegate installed => nothing left waiting in instruments/meters/tracers' hold at every unlock, for all 14 instrument constructors, RegisterCallback, Meter, Tracer and the setDelegate chain; registration.setDelegate re-registers only while unreg != nil. "
+      "The check found the Unregister/setDelegate lock-order inversion (fixed, see KNOWN_FINDINGS.txt).",
+      _TB + "sync.Mutex semantics assumed; third-party SDK calls and container/list are unknown calls (frames and no-panic of these functions are marked unchecked). Not decided: atomic.Value forwarding of instruments/tracers, state.go once-only installation.",
+      "DESIGN.md 4 C16")
 _todo = "check not built yet in this session (engine exists; contracts for this property's functions still to be written)"
-for _p in ["C01","C06","C11","C16"]:
+for _p in ["C01","C06","C11"]:
     na(_p, _todo)
